@@ -247,12 +247,46 @@ fn run_const(t: &Table, pairs: Pairs<'_, u8>) -> String {
             let p: ConstPrattParser<u8, 4> = ConstPrattParser::new_const(const_entries::<4>(t));
             run_map!(p, pairs)
         }
+        5 => {
+            let p: ConstPrattParser<u8, 5> = ConstPrattParser::new_const(const_entries::<5>(t));
+            run_map!(p, pairs)
+        }
+        6 => {
+            let p: ConstPrattParser<u8, 6> = ConstPrattParser::new_const(const_entries::<6>(t));
+            run_map!(p, pairs)
+        }
         _ => unreachable!(),
     }
 }
 
+/// Wide levels: 3..5 infix operators of one associativity on one level (what `a | b | c | ...`
+/// chains in a PrecClimber table and `.op(a | b | c)` in a PrattParser build), alone and next to a
+/// second level.
+fn wide_tables() -> Vec<Table> {
+    let mut out = vec![];
+    for kind in [Kind::InfixL, Kind::InfixR] {
+        let other = if kind == Kind::InfixL { Kind::InfixR } else { Kind::InfixL };
+        for n in 3..=5usize {
+            out.push(vec![OpDef { level: 1, kind }; n]);
+            let mut t = vec![OpDef { level: 1, kind }; n];
+            t.push(OpDef { level: 2, kind: other });
+            out.push(t);
+            let mut t = vec![OpDef { level: 1, kind: other }];
+            t.extend(vec![OpDef { level: 2, kind }; n]);
+            out.push(t);
+        }
+    }
+    out
+}
+
 /// PrecClimber applies to infix-only tables whose levels each have a single associativity.
 fn climber(t: &Table) -> Option<PrecClimber<u8>> {
+    climber_shaped(t, 0)
+}
+
+/// `shape` says how the `|` chain of one level is associated: 0 = `((a | b) | c) | d`,
+/// 1 = `a | (b | (c | d))`, 2 = `(a | b) | (c | d)` (every way a user can write the table).
+fn climber_shaped(t: &Table, shape: u8) -> Option<PrecClimber<u8>> {
     if t.iter().any(|o| matches!(o.kind, Kind::Prefix | Kind::Postfix)) {
         return None;
     }
@@ -263,17 +297,34 @@ fn climber(t: &Table) -> Option<PrecClimber<u8>> {
         if kinds.iter().any(|k| *k != kinds[0]) {
             return None;
         }
-        let mut chain: Option<prec_climber::Operator<u8>> = None;
-        for (i, o) in t.iter().enumerate() {
-            if o.level == l {
-                let op = prec_climber::Operator::new(i as u8 + 1, if o.kind == Kind::InfixL { prec_climber::Assoc::Left } else { prec_climber::Assoc::Right });
-                chain = Some(match chain {
-                    None => op,
-                    Some(c) => c | op,
-                });
-            }
+        let ops: Vec<prec_climber::Operator<u8>> = t
+            .iter()
+            .enumerate()
+            .filter(|(_, o)| o.level == l)
+            .map(|(i, o)| prec_climber::Operator::new(i as u8 + 1, if o.kind == Kind::InfixL { prec_climber::Assoc::Left } else { prec_climber::Assoc::Right }))
+            .collect();
+        fn left(mut v: Vec<prec_climber::Operator<u8>>) -> prec_climber::Operator<u8> {
+            let first = v.remove(0);
+            v.into_iter().fold(first, |c, o| c | o)
         }
-        levels.push(chain.unwrap());
+        fn right(mut v: Vec<prec_climber::Operator<u8>>) -> prec_climber::Operator<u8> {
+            let last = v.pop().unwrap();
+            v.into_iter().rev().fold(last, |c, o| o | c)
+        }
+        let chain = match shape {
+            0 => left(ops),
+            1 => right(ops),
+            _ => {
+                let mut a = ops;
+                let b = a.split_off(a.len() / 2);
+                if a.is_empty() {
+                    left(b)
+                } else {
+                    left(a) | left(b)
+                }
+            }
+        };
+        levels.push(chain);
     }
     Some(PrecClimber::new(levels))
 }
@@ -299,7 +350,9 @@ fn table_json(t: &Table) -> Value {
 fn check_table(t: &Table, k: usize, stats: &mut Stats) {
     let pp = pratt(t);
     let pc = climber(t);
-    let pcc = const_climbers(t);
+    let mut pcc = const_climbers(t);
+    let n_const = pcc.len();
+    pcc.extend([1u8, 2].into_iter().filter_map(|sh| climber_shaped(t, sh)));
     let seqs = sequences(t, k);
     stats.inc("tables");
     for seq in &seqs {
@@ -343,7 +396,8 @@ fn check_table(t: &Table, k: usize, stats: &mut Stats) {
             });
             stats.inc("prec_climber_evaluations");
             if gotp.as_deref() != Ok(want.as_str()) {
-                report(stats, ["const-prec-climber-differs", "const-prec-climber-reversed-table-differs", "const-prec-climber-rotated-table-differs"][ci], &gotp);
+                let class = if ci < n_const { ["const-prec-climber-differs", "const-prec-climber-reversed-table-differs", "const-prec-climber-rotated-table-differs"][ci] } else { ["prec-climber-right-nested-chain-differs", "prec-climber-balanced-chain-differs"][ci - n_const] };
+                report(stats, class, &gotp);
             }
         }
         // vacuity control: shape classes of the expected tree
@@ -398,7 +452,9 @@ fn main() {
         std::process::exit(0)
     }
     let k = cfg.opt("k").and_then(|s| s.parse().ok()).unwrap_or(if cfg.quick() { 9 } else { 12 });
-    let ts = tables(4, 3);
+    let mut ts = tables(4, 3);
+    let n_plain = ts.len();
+    ts.extend(wide_tables());
     let jobs = cfg.jobs;
     let mut stats = Stats::new();
     let parts: Vec<Stats> = std::thread::scope(|sc| {
@@ -407,9 +463,9 @@ fn main() {
                 let ts = &ts;
                 sc.spawn(move || {
                     let mut st = Stats::new();
-                    for t in ts.iter().skip(j).step_by(jobs) {
-                        // small tables get longer sequences
-                        let kk = if t.len() <= 2 { k + 2 } else { k };
+                    for (ti, t) in ts.iter().enumerate().skip(j).step_by(jobs) {
+                        // small tables get longer sequences, the wide ones shorter
+                        let kk = if ti >= n_plain { 7 } else if t.len() <= 2 { k + 2 } else { k };
                         check_table(t, kk, &mut st);
                         st.max("max_sequence_length", kk as u64);
                     }
@@ -423,7 +479,7 @@ fn main() {
         stats.merge(p);
     }
     let mut cov = vcore::Map::new();
-    cov.insert("rule".into(), json!("tables = multisets of <= 4 operators over {prefix, postfix, infix-left, infix-right} x levels 1..3 (levels contiguous, at most two identical operators); for each table every well-formed sequence prefix* operand postfix* (infix prefix* operand postfix*)* of at most K tokens (K+2 for tables with <= 2 operators), fed as flat Pairs built with PairsBuilder; PrattParser, ConstPrattParser<N> and (infix-only, one associativity per level) PrecClimber must return exactly the S-expression of an independent shunting-yard with the statement's binding powers; labels carry token positions, so equality implies every operator applied once and operand order preserved. Non-trivial: sequences of more than one token"));
+    cov.insert("rule".into(), json!("tables = multisets of <= 4 operators over {prefix, postfix, infix-left, infix-right} x levels 1..3 (levels contiguous, at most two identical operators), plus wide tables with 3..5 infix operators of one associativity on one level, alone and beside a second level (sequences of at most 7 tokens; PrecClimber chains built left-nested, right-nested and balanced; PrecClimber::new_const with natural, reversed and rotated tables); for each table every well-formed sequence prefix* operand postfix* (infix prefix* operand postfix*)* of at most K tokens (K+2 for tables with <= 2 operators), fed as flat Pairs built with PairsBuilder; PrattParser, ConstPrattParser<N> and (infix-only, one associativity per level) PrecClimber must return exactly the S-expression of an independent shunting-yard with the statement's binding powers; labels carry token positions, so equality implies every operator applied once and operand order preserved. Non-trivial: sequences of more than one token"));
     cov.insert("exhaustive".into(), json!(true));
     verdict::conclude(verdict::Report {
         property: "C13",
